@@ -479,9 +479,6 @@ RatSeq == RatPieces2
 Rat3Seq == IF Depth >= 3 THEN RatPieces3 ELSE <<>>
 Pieces(ps, Op(_)) == [i \in 1..Len(ps) |-> MapSeq(AsSeq(ps[i]), Op)]
 CountP(ps) == SumInt([i \in 1..Len(ps) |-> Cardinality(ps[i])], Len(ps))
-CountIf(ps, P(_)) == SumInt([i \in 1..Len(ps) |-> Cardinality({t \in ps[i] : P(t)})], Len(ps))
-T1Fail(t) == IsT1(t) /\ ~TransLawOK(t)
-T1MagFail(t) == IsT1(t) /\ ~TransMagOK(t)
 
 Post ==
     /\ TLCGet("stats").diameter >= 0
@@ -496,11 +493,7 @@ Post ==
           bound |-> AsSeq(BoundCfgs),
           counts |-> [rat |-> CountP(RatSeq), rat3 |-> CountP(Rat3Seq), cal |-> Cardinality(CalTrees),
                       unsup |-> Cardinality(UnsupTrees), trans |-> Cardinality(TT1),
-                      trans2 |-> Cardinality(TT2), bound |-> Cardinality(BoundCfgs),
-                      neg_sigma |-> CountIf(RatSeq \o Rat3Seq, RuleNeg),
-                      neg_paths |-> CountIf(RatSeq \o Rat3Seq, HasNegScale),
-                      law_fail |-> Cardinality({t \in TT1 : T1Fail(t)}),
-                      mag_fail |-> Cardinality({t \in TT1 : T1MagFail(t)})]])
+                      trans2 |-> Cardinality(TT2), bound |-> Cardinality(BoundCfgs)]])
 
 \* quick alphabets (cfg: ULeaves <- ULeavesQ, ...)
 ULeavesQ == {<<3, 1, 3, 10>>, <<-2, 1, 2, 5>>, <<1, 2, 1, 2>>}
